@@ -282,6 +282,64 @@ def analyse(g):
             'has_nullable': bool(nullable), 'concrete': c}
 
 
+def colliding_alternatives(g, cap=400):
+    """True if two alternatives of one rule expand to the same BNF symbol sequence (anonymous literals named after an
+    equal named terminal).  lark merges such alternatives (silently for empty ones and for alternatives equal up to
+    token filtering, with the documented 'Rules defined twice' GrammarError otherwise), so derivations through the
+    second one do not exist for it: outside 'well-formed grammar' for set-equality oracles."""
+    named = {(t['pat']['kind'], t['pat']['value'], t['pat'].get('flags', '')): t['name'] for t in g['terms']}
+    class Big(Exception): pass
+    def disjoint_union(sets):
+        out = set()
+        for s_ in sets:
+            if s_ & out: raise Big()        # alternatives inside a group collide
+            out |= s_
+        return out
+    def sig(x):
+        k = x[0]
+        if k in ('t', 'n', 'p'): return {(x[1],)}
+        if k in ('lit', 're'):
+            key = ('str' if k == 'lit' else 're', x[1], x[2] if len(x) > 2 else '')
+            return {(named.get(key, 'ANON:%s:%s' % (k, x[1])),)}
+        if k == 'tmpl': return {('%s{%s}' % (x[1], ','.join(sorted(map(str, sig_seq(x[2]))))),)}
+        if k == 'grp': return disjoint_union([sig_seq(a) for a in x[1]]) if x[1] else {()}
+        if k == 'maybe': return disjoint_union([sig_seq(a) for a in x[1]] + [{()}])
+        if k == 'opt': return disjoint_union([sig(x[1]), {()}])
+        if k == 'star': return {('*%s' % sorted(sig(x[1])),), ()}
+        if k == 'plus': return {('*%s' % sorted(sig(x[1])),)}
+        if k == 'rep':
+            if x[3] >= 50: return {('~%s' % sorted(sig(x[1])), x[2], x[3])}
+            base = sig(x[1]); out = set(); cur = {()}
+            for c in range(0, x[3] + 1):
+                if c >= x[2]:
+                    if out & cur: raise Big()
+                    out |= cur
+                if c < x[3]:
+                    new = [a + b for a in cur for b in base]
+                    cur = set(new)
+                    if len(cur) != len(new) or len(cur) > cap: raise Big()
+            return out
+        raise ValueError(x)
+    def sig_seq(items):
+        cur = {()}
+        for i in items:
+            s_ = sig(i)
+            new = [a + b for a in cur for b in s_]
+            cur = set(new)
+            if len(cur) != len(new) or len(cur) > cap: raise Big()   # two expansions of one alternative coincide
+        return cur
+    try:
+        for r in Concrete(g).rules.values():
+            seen = set()
+            for a in r['alts']:
+                s_ = sig_seq(a['items'])
+                if s_ & seen: return True
+                seen |= s_
+    except Big:
+        return True
+    return False
+
+
 # ------------------------------------------------------------------------ reference semantics
 class Ref(object):
     """mode 'exact'  : every terminal (and ignore) occurrence may use any of its match lengths
@@ -550,8 +608,12 @@ class Ref(object):
         if lo <= 0 and i == j:
             out[()] = frozenset([0])
         if hi > 0:
+            rest_key = (id(x), max(0, lo - 1), hi - 1)
+            rest = self._stars.get(rest_key)
+            if rest is None:
+                rest = self._stars[rest_key] = ['rep', body, max(0, lo - 1), hi - 1]
             for m in sorted(self._e(body, i)):
-                if m > j: continue
+                if m > j or j not in self._e(rest, m): continue      # only recurse into spans whose tail is feasible
                 heads = self.d_item(body, i, m, keep)
                 if not heads: continue
                 tails = self.d_rep(x, m, j, keep, max(0, lo - 1), hi - 1)
@@ -601,6 +663,107 @@ class Ref(object):
         return out
 
 
+    # -- validation of one given shaped tree (complete for cyclic grammars too: a shortest derivation never repeats
+    #    a state (rule, position, child index) on its own path, so cutting on re-entry loses nothing; results are
+    #    memoised only when no cut happened underneath)
+    def validate(self, tree, budget=200000):
+        self.solve()
+        self._vmemo = {}; self._vactive = set(); self._vcuts = 0; self._vbudget = budget
+        kids = (tree,)
+        for p in sorted(self.after(0)):
+            if (self.n, 1) in self.v_item(['n', self.start], p, kids, 0, False):
+                return True
+        return False
+
+    def v_items(self, items, k, i, kids, a, keep):
+        if k == len(items):
+            return {(i, a)}
+        out = set()
+        for m, b in self.v_item(items[k], i, kids, a, keep):
+            out |= self.v_items(items, k + 1, m, kids, b, keep)
+        return out
+
+    def v_item(self, x, i, kids, a, keep):
+        self._vbudget -= 1
+        if self._vbudget < 0:
+            raise TooMany('validation budget')
+        k = x[0]
+        if k in ('t', 'lit', 're'):
+            out = set()
+            for e, name, prio in self.tok(x, i):
+                if k == 't': kept = keep or not x[1].startswith('_')
+                elif k == 'lit': kept = keep
+                else: kept = True
+                if kept:
+                    if a < len(kids) and kids[a] == ('T', name, self.text[i:e], i):
+                        out |= {(j, a + 1) for j in self.after(e)}
+                else:
+                    out |= {(j, a) for j in self.after(e)}
+            return out
+        if k == 'n':
+            key = (x[1], i, id(kids), a)
+            got = self._vmemo.get(key)
+            if got is not None: return got
+            if key in self._vactive:
+                self._vcuts += 1
+                return set()
+            self._vactive.add(key)
+            cuts0 = self._vcuts
+            try:
+                r = self.rules[x[1]]
+                kp = r['keep'] or self.keep_all
+                out = set()
+                for alt in r['alts']:
+                    if i not in range(self.n + 1) or not self._e(['n', x[1]] if False else x, i):
+                        break
+                    if r['inline']:
+                        out |= self.v_items(alt['items'], 0, i, kids, a, kp)
+                        continue
+                    collapsible = r['expand1'] and not alt.get('alias')
+                    if collapsible:
+                        out |= {(j, b) for j, b in self.v_items(alt['items'], 0, i, kids, a, kp) if b == a + 1}
+                    if a < len(kids) and kids[a] is not None and kids[a][0] == 'N' and kids[a][1] == (alt.get('alias') or r['display']):
+                        sub = kids[a][2]
+                        if not (collapsible and len(sub) == 1):
+                            out |= {(j, a + 1) for j, b in self.v_items(alt['items'], 0, i, sub, 0, kp) if b == len(sub)}
+            finally:
+                self._vactive.discard(key)
+            if self._vcuts == cuts0:
+                self._vmemo[key] = out
+            return out
+        if k == 'grp':
+            out = set()
+            for alt in x[1]: out |= self.v_items(alt, 0, i, kids, a, keep)
+            return out
+        if k == 'maybe':
+            out = set()
+            for alt in x[1]: out |= self.v_items(alt, 0, i, kids, a, keep)
+            nn = self.size(x, keep) if self.placeholders else 0
+            if all(c is None for c in kids[a:a + nn]) and a + nn <= len(kids):
+                out.add((i, a + nn))
+            return out
+        if k == 'opt':
+            return {(i, a)} | self.v_item(x[1], i, kids, a, keep)
+        if k in ('star', 'plus'):
+            res = {(i, a)} if k == 'star' else set()
+            seen = set(); frontier = {(i, a)}
+            while frontier:
+                nxt = set()
+                for p, b in frontier: nxt |= self.v_item(x[1], p, kids, b, keep)
+                new = nxt - seen; seen |= new; res |= nxt; frontier = new
+            return res
+        if k == 'rep':
+            cur = {(i, a)}; res = {(i, a)} if x[2] == 0 else set()
+            for c in range(1, x[3] + 1):
+                nxt = set()
+                for p, b in cur: nxt |= self.v_item(x[1], p, kids, b, keep)
+                cur = nxt
+                if c >= x[2]: res |= cur
+                if not cur: break
+            return res
+        raise ValueError(x)
+
+
 # ------------------------------------------------------------------------ normalising lark results
 def norm_tree(t, named=None, pos=True):
     """lark Tree/Token/None -> shaped tuple.  named: set of named terminal names (others compare by value only)."""
@@ -613,6 +776,15 @@ def norm_tree(t, named=None, pos=True):
         v = t.value
         return ('T', ty, v, t.start_pos if pos else None)
     return ('V', repr(t))
+
+
+def strip_pos(t):
+    """trees compared the way lark compares them: tokens by type and value, not by position"""
+    if t is None: return None
+    if t[0] == 'T': return ('T', t[1], t[2], None)
+    if t[0] == 'N': return ('N', t[1], tuple(strip_pos(c) for c in t[2]))
+    if t[0] == 'SPLICE': return ('SPLICE', tuple(strip_pos(c) for c in t[1]))
+    return t
 
 
 def expand_ambig(t):
